@@ -73,6 +73,14 @@ def generate(prop_module, only=None):
         info['inlined'] |= I.inlined
         info['externals'] |= set(npstubs.USED)
         info['paths'] += len(results)
+    # units of other contract modules that need their own external stubs (e.g. a utility function verified with a different numpy model)
+    import importlib
+    for em in getattr(prop_module, 'EXTRA_MODULES', []):
+        out2, info2 = generate(importlib.import_module('contracts.' + em), only)
+        out += out2
+        for k in ('units', 'unsupported', 'raised'): info[k] += info2[k]
+        for k in ('functions', 'inlined', 'externals'): info[k] |= info2[k]
+        info['paths'] += info2['paths']
     return out, info
 
 def main(argv):
